@@ -446,11 +446,43 @@ def run(ctx, report, status):
             case = gen_direct(rng, shape)
             check_case(ctx, report, case, "direct")
             report.count("direct_block_boundary")
+    for _ in range(ctx.n(25, 400)):
+        check_frame_infinite(ctx, report, rng)
     for _ in range(ctx.n(40, 2000)):
         case = gen_machine(rng)
         check_case(ctx, report, case, "machine")
         report.count("machine")
         report.count(f"machine_{case['measure']}")
+
+
+def check_frame_infinite(ctx, report, rng):
+    """frame clauses only, on a cost volume that also holds infinite costs (outside the model, whose costs are numbers or
+    NaN): the disparity step must still leave every cost, flag and band as it found them, bit for bit"""
+    rows, cols, nd = rng.randrange(1, 6), rng.randrange(1, 8), rng.randrange(1, 6)
+    is_max = rng.random() < 0.5
+    cost = np.array([[[rng.choice([0.0, 1.0, 2.5, float("nan"), float("inf"), float("-inf"), float("inf")]) for _ in range(nd)]
+                      for _ in range(cols)] for _ in range(rows)], dtype=np.float32)
+    flags = np.array([[rng.choice([0, 0, 4, 1, 2]) for _ in range(cols)] for _ in range(rows)])
+    cv = wta.make_cv(cost, [j - 1.0 for j in range(nd)], "max" if is_max else "min", flags)
+    before = wta.snapshot(cv)
+    try:
+        out, _inv = wta.to_disp(cv, rng.choice([None, -9999, "NaN", 0]))
+    except Exception as exc:  # pylint: disable=broad-except
+        report.count(f"frame_infinite_raises_{type(exc).__name__}")
+        return
+    after = wta.snapshot(cv)
+    case = {"kind": "frame_infinite", "is_max": is_max, "cost": [[[("nan" if v != v else ("inf" if v == float("inf") else ("-inf" if v == float("-inf") else float(v)))) for v in px] for px in row] for row in cost.tolist()],
+            "flags": flags.tolist()}
+    report.case(key=json.dumps(case, sort_keys=True), nontrivial=True, sample={"label": "frame_infinite", "shape": [rows, cols, nd]})
+    report.hit("cv_unchanged")
+    a, b = before["cost_volume"], after["cost_volume"]
+    if not (a.shape == b.shape and a.dtype == b.dtype and np.array_equal(a, b, equal_nan=True)):
+        diff = np.argwhere(~((a == b) | (np.isnan(a) & np.isnan(b))))
+        report.fail("cv_unchanged", "infinite_costs", case, {"cells_changed": diff[:5].tolist()},
+                    "the disparity step changed cells of a cost volume that holds infinite costs")
+    report.hit("flags_carried")
+    if not np.array_equal(before["validity_mask"], after["validity_mask"]) or not np.array_equal(before["validity_mask"], np.array(out["validity_mask"].data)):
+        report.fail("flags_carried", "infinite_costs", case, None)
 
 
 def gen_exhaustive_rows(k, is_max, invalid_cfg):
